@@ -229,13 +229,21 @@ func (r *Results) Stats() QueryStats {
 // and freezes the terminal state. Close is idempotent, safe to call
 // concurrently with Next, and always returns nil: Close is not an error
 // state, so a subsequent Err returns whatever terminal state existed before
-// Close (nil if none). A closed Results is not reusable.
+// Close (nil if none; the context error if the Query context was already
+// canceled). A closed Results is not reusable.
 func (r *Results) Close() error {
 	r.closeOnce.Do(func() {
 		r.cancel()
 		<-r.done
 
-		err := r.joinedErrs()
+		// Decide the terminal state the way terminate does: a query whose
+		// context was canceled before Close must not later read as complete.
+		var err error
+		if cerr := r.callerCtx.Err(); cerr != nil {
+			err = fmt.Errorf("query canceled: %w", cerr)
+		} else {
+			err = r.joinedErrs()
+		}
 		r.mu.Lock()
 		if !r.finalized {
 			r.finalized = true
